@@ -25,7 +25,7 @@ EXPLANATION = (
     ' Round 4: a signal that signal_init() does not replace (SIGCONT) is restored only under a flag raised where it is replaced; the Twisted capturing wrapper catches BaseException (C13.1).'
     ' Round 5: (7) TrioEventLoop takes off at most the one ExceptionGroup layer its own nursery adds; (8) PAIR: every hook MainLoop.start() registers (idle callback, input watchers, descriptor-change signal, started screen) is released by stop() on all its normal paths and _run() passes stop() on the normal and on the exceptional exit (before fix 35c16b8 an exception-terminated run() left the watchers and the idle redraw in the event loop); a `finally` around event_loop.run() must not contain return / raise / break.'
     ' Round 6: (9) MEMO: every PopUpTarget entry point calls _update_overlay() before it routes to _current_widget (a batch of events is delivered without a redraw in between); (11) start() drops the cached screen size (fix for two sessions with a resize in between); (12) the flag that suppresses the signal-key snapshot in _start() is lowered where _stop() restores the snapshot (fix 69fb61c).'
-    ' Round 7: (13) event-name words are looked for by containment (is_mouse_event: every mouse report reaches mouse_event()); (14) every write of Screen._stop() is followed by a flush() on every way to its end.'
+    ' Round 7: (13) event-name words are looked for by containment (is_mouse_event: every mouse report reaches mouse_event()); (14) every write of Screen._stop() is followed by a flush() on every way to its end; (15) no event loop re-raises a caught exception object with a `from` clause that overwrites its __cause__ (fix 1942920).'
 )
 NOT_DECIDED = "That the terminal really ends up in its initial modes (needs a pty), delivery order across reads, redraw-before-wait timing, failures inside MainLoop.start()/stop() themselves."
 ASSUMPTIONS = ["glib_loop.py cannot be imported here; its reports are informational only."]
@@ -666,6 +666,37 @@ def rule_stop_flushed(ctx: Ctx) -> RuleResult:
     return rr
 
 
+def rule_reraise_unchanged(ctx: Ctx) -> RuleResult:
+    """'any other exception propagates out of run() unchanged': the event loops catch a callback's exception (or park
+    it) and raise the same object again from run().  `raise <that object> from None` is not a neutral way to do it:
+    it assigns __cause__ = None on the object, so an exception the callback raised with `raise X from Y` arrives
+    without Y.  Every raise statement of the event-loop layer that re-raises an existing exception object (a name or
+    attribute, possibly through .with_traceback()) either has no `from` clause or names that object's own __cause__.
+    Before fix 1942920 TrioEventLoop._handle_main_loop_exception used `from None` to hide the exception group."""
+    p = ctx.p
+    rr = RuleResult("PASS", "C12.15", "no event loop re-raises a callback's exception with a `from` clause that overwrites its __cause__", floor=4)
+    for fi in p.functions.values():
+        if not (fi.module.name.startswith("urwid.event_loop") or fi.module.name == "urwid.event_loop.main_loop") or fi.is_lambda:
+            continue
+        for r in fi.own_nodes():
+            if not isinstance(r, ast.Raise) or r.exc is None:
+                continue
+            e = r.exc
+            if isinstance(e, ast.Call) and isinstance(e.func, ast.Attribute) and e.func.attr == "with_traceback":
+                e = e.func.value
+            if not isinstance(e, (ast.Name, ast.Attribute)):
+                continue  # a new exception object: the `from` clause describes it, nothing is overwritten
+            # a class name (raise ExitMainLoop) constructs a new object as well
+            if isinstance(e, ast.Name) and e.id[:1].isupper():
+                continue
+            obj = ast.unparse(e)
+            ok = r.cause is None or (isinstance(r.cause, ast.Attribute) and r.cause.attr == "__cause__" and ast.unparse(r.cause.value) == obj)
+            rr.inst(f"{short(fi)}: {norm(r, 50)}", True, {"site": f"{short(fi)}: {norm(r, 60)}", "object": obj, "cause_clause": ast.unparse(r.cause) if r.cause is not None else None} if len(rr.samples) < 10 else None)
+            if not ok:
+                rr.add(finding("PASS", fi, r, f"`{norm(r, 70)}` re-raises the exception object `{obj}` with a `from` clause: that assigns __cause__ on the object, so the exception a callback raised with `raise X from Y` leaves run() without Y (not 'unchanged')", construct=f"re-raise of {obj} overwrites __cause__"))
+    return rr
+
+
 def run(ctx: Ctx):
     return [
         rule_run_restores(ctx),
@@ -682,6 +713,7 @@ def run(ctx: Ctx):
         _nameprefix(ctx),
         rule_stop_flushed(ctx),
         _redraw_armed(ctx),
+        rule_reraise_unchanged(ctx),
     ]
 
 
@@ -690,6 +722,8 @@ from ..mutants import Mut  # noqa: E402
 _M = "urwid/event_loop/main_loop.py"
 _P = "urwid/display/_posix_raw_display.py"
 MUTANTS = [
+    Mut("trio-reraise-from-none", "urwid/event_loop/trio_loop.py", "TrioEventLoop._handle_main_loop_exception", "raise exc.with_traceback(exc.__traceback__) from exc.__cause__", "raise exc.with_traceback(exc.__traceback__) from None", "PASS|event_loop.trio_loop.TrioEventLoop._handle_main_loop_exception|re-raise of exc overwrites __cause__"),
+    Mut("twin-trio-reraise-plain", "urwid/event_loop/trio_loop.py", "TrioEventLoop._handle_main_loop_exception", "raise exc.with_traceback(exc.__traceback__) from exc.__cause__", "raise exc.with_traceback(exc.__traceback__)", twin=True),
     Mut("stop-disables-after-the-flush", _P, "urwid.display._posix_raw_display.Screen._stop", "        if self.bracketed_paste_mode:\n            self.write(escape.DISABLE_BRACKETED_PASTE_MODE)\n\n        if self.focus_reporting:\n            self.write(escape.DISABLE_FOCUS_REPORTING)\n\n", "", "PASS|display._posix_raw_display.Screen._stop|write not flushed", also=[("        self._stop_mouse_restore_buffer()\n", "        self._stop_mouse_restore_buffer()\n        if self.focus_reporting:\n            self.write(escape.DISABLE_FOCUS_REPORTING)\n        if self.bracketed_paste_mode:\n            self.write(escape.DISABLE_BRACKETED_PASTE_MODE)\n")]),
     Mut("mouse-event-test-as-prefix", "urwid/util.py", "is_mouse_event", '"mouse" in ev[0]', 'isinstance(ev[0], str) and ev[0].startswith("mouse ")', "SIB|util.is_mouse_event|'mouse' tested as a prefix"),
     Mut("signal-keys-snapshot-once", _P, "urwid.display._posix_raw_display.Screen._stop", "            self._signal_keys_set = False\n", "", "PAIR|display._posix_raw_display.Screen._stop|restore leaves _signal_keys_set raised"),
